@@ -34,23 +34,40 @@ CIS = {"tpr_ci": ("tp", "p"), "tnr_ci": ("tn", "n"), "fpr_ci": ("fp", "n"), "fnr
 CI_ALIASES = {"tar_ci": "tpr_ci", "frr_ci": "fnr_ci", "trr_ci": "tnr_ci", "far_ci": "fpr_ci"}
 COMPLEMENTS = [("tpr", "fnr"), ("tnr", "fpr"), ("ppv", "fdr"), ("npv", "for_"), ("topr", "tonr"),
                ("accuracy", "error_rate")]
-ALPHAS = [0.01, 0.05, 0.3, 0.9]
+ALPHAS = [1e-12, 1e-9, 0.01, 0.05, 0.3, 0.9]
 SHAPES = [(1,), (3,), (0,), (2, 2), (2, 0, 3), (4, 2, 3)]
+
+
+# counts large enough for n**3 (and n*n) to leave the int64 / int32 range: magnitudes are part of the state
+BIG = [0, 1, 3_000_000, 40_000_000]
+
+
+def _entries(b, sc):
+    return b["big_entries"] if sc in ("big", "big32") else b["entries"]
+
+
+def _scale(sc):
+    return 1 if sc in ("big", "big32") else sc
+
+
+def _dtype(sc):
+    return np.int32 if sc == "big32" else (np.int64 if sc in (1, "big") else np.float64)
 
 
 def bounds(tier):
     if tier == "quick":
-        return {"entries": [0, 1, 2, 5], "scales": [1, 0.5], "alphas": ALPHAS, "leading_shapes": [list(s) for s in SHAPES]}
-    return {"entries": [0, 1, 2, 3, 5, 10], "scales": [1, 0.5, 1e-3, 1e6], "alphas": ALPHAS,
-            "leading_shapes": [list(s) for s in SHAPES]}
+        return {"entries": [0, 1, 2, 5], "scales": [1, 0.5, 1e-10, "big"], "alphas": ALPHAS,
+                "leading_shapes": [list(s) for s in SHAPES], "big_entries": BIG}
+    return {"entries": [0, 1, 2, 3, 5, 10], "scales": [1, 0.5, 1e-3, 1e6, 1e-10, 1e-12, "big", "big32"], "alphas": ALPHAS,
+            "leading_shapes": [list(s) for s in SHAPES], "big_entries": BIG}
 
 
 def work(tier, seed):
     b = bounds(tier)
-    mats = list(itertools.product(b["entries"], repeat=4))
     items = []
     n = 24
     for sc in b["scales"]:
+        mats = list(itertools.product(_entries(b, sc), repeat=4))
         for i in range(n):
             items.append({"kind": "single", "scale": sc, "mats": mats[i::n]})
         items.append({"kind": "stacked", "scale": sc})
@@ -94,8 +111,10 @@ def run(item, ctx, tier, seed):
     from score_analysis import ConfusionMatrix, metrics
 
     b = bounds(tier)
-    sc = item["scale"]
-    dtype = np.int64 if sc == 1 else np.float64
+    sc_name = item["scale"]
+    dtype = _dtype(sc_name)
+    sc = _scale(sc_name)
+    exact_int = dtype != np.float64
     if item["kind"] == "single":
         for mt in item["mats"]:
             vals = [v * sc for v in mt]
@@ -116,7 +135,7 @@ def run(item, ctx, tier, seed):
                     ok, v = guarded(ctx, "count-" + nm, c2, get, nm)
                     ctx.tick()
                     # integer matrices: exact; float matrices: sums are rounded once, so 1e-12 relative
-                    if ok and not (np.ndim(v) == 0 and (F(np.asarray(v).item()) == d[nm] if sc == 1 else
+                    if ok and not (np.ndim(v) == 0 and (F(np.asarray(v).item()) == d[nm] if exact_int else
                                                          abs(float(v) - float(d[nm])) <= 1e-12 * max(1.0, abs(float(d[nm]))))):
                         ctx.fail("count-equals-definition", dict(c2, metric=nm), observed=v, expected=float(d[nm]))
                 for nm in RATES:
@@ -129,7 +148,7 @@ def run(item, ctx, tier, seed):
                                  expected="float")
                         v = float(v)
                     obs[(api, nm)] = v
-                    _check_rate(ctx, c2, nm, v, d[nm], 1e-12 if nm in ("fdr", "for_", "error_rate") or sc != 1 else 0.0)
+                    _check_rate(ctx, c2, nm, v, d[nm], 1e-12 if nm in ("fdr", "for_", "error_rate") or not exact_int else 0.0)
                 for al, orig in ALIASES.items():
                     ok, v = guarded(ctx, "alias-" + al, c2, get, al)
                     ctx.tick()
@@ -167,18 +186,19 @@ def run(item, ctx, tier, seed):
                         if np.any(np.isnan(ci)):
                             ctx.fail("ci-nan-iff-rate-nan", dict(c2, metric=nm, alpha=alpha), observed=ci, expected=want)
                             continue
-                        if not (abs(ci[0] - want[0]) <= 1e-9 and abs(ci[1] - want[1]) <= 1e-9):
+                        mag = max(1.0, abs(want[0]), abs(want[1]))  # fractional weights give huge half-widths
+                        if not (abs(ci[0] - want[0]) <= 1e-9 * mag and abs(ci[1] - want[1]) <= 1e-9 * mag):
                             ctx.fail("ci-equals-normal-approximation", dict(c2, metric=nm, alpha=alpha), observed=ci,
                                      expected=want)
                         centre = float(d[cn] / d[nn])
-                        if abs((ci[0] + ci[1]) / 2 - centre) > 1e-12:
+                        if abs((ci[0] + ci[1]) / 2 - centre) > 1e-12 * mag:
                             ctx.fail("ci-centred-on-rate", dict(c2, metric=nm, alpha=alpha), observed=ci, expected=centre)
-                        if nm in prev and not (prev[nm][0] <= ci[0] + 1e-15 and ci[1] <= prev[nm][1] + 1e-15):
+                        if nm in prev and not (prev[nm][0] <= ci[0] + 1e-15 * mag and ci[1] <= prev[nm][1] + 1e-15 * mag):
                             ctx.fail("ci-nested-in-alpha", dict(c2, metric=nm, alpha=alpha), observed=ci, expected=prev[nm])
                     for x, y in (("tpr_ci", "fnr_ci"), ("tnr_ci", "fpr_ci")):
                         if x in cis and y in cis:
                             mir = 1.0 - cis[y][::-1]
-                            if not np.allclose(cis[x], mir, rtol=0, atol=1e-12, equal_nan=True):
+                            if not np.allclose(cis[x], mir, rtol=1e-12, atol=1e-12, equal_nan=True):
                                 ctx.fail("ci-of-complement-is-mirrored", dict(c2, pair=[x, y], alpha=alpha),
                                          observed=cis[x], expected=mir)
                     for al, orig in CI_ALIASES.items():
@@ -192,10 +212,10 @@ def run(item, ctx, tier, seed):
                             ctx.fail("alias-identical", dict(c2, alias=al, alpha=alpha), observed=v, expected=cis[orig])
                     prev = cis
             ctx.outcome(tuple(round(v, 12) if not _isnan(v) else -1 for (a, _), v in sorted(obs.items()) if a == "cm"))
-        ctx.sample({"kind": "single", "scale": sc, "first_matrix": item["mats"][0], "n_matrices": len(item["mats"])})
+        ctx.sample({"kind": "single", "scale": sc_name, "first_matrix": item["mats"][0], "n_matrices": len(item["mats"])})
         return None
     # ------------------------------------------------------------------ stacked
-    mats = list(itertools.product(b["entries"], repeat=4))
+    mats = list(itertools.product(_entries(b, sc_name), repeat=4))
     allarr = (np.array(mats, dtype=float) * sc).astype(dtype).reshape(-1, 2, 2)
     names = COUNTS + RATES + list(ALIASES)
     per = {nm: np.array([np.asarray(getattr(metrics, nm)(m_), dtype=float) for m_ in allarr]) for nm in names}
@@ -208,7 +228,7 @@ def run(item, ctx, tier, seed):
         idx = (idx * 37 + 11) % len(mats) if shape != (len(mats),) else idx
         arr = allarr[idx].reshape(shape + (2, 2))
         cm = ConfusionMatrix(matrix=arr, binary=True)
-        case = {"kind": "stacked", "scale": sc, "leading_shape": list(shape)}
+        case = {"kind": "stacked", "scale": sc_name, "leading_shape": list(shape)}
         ctx.state()
         for api in ("metrics", "cm"):
             for nm in names:
@@ -237,8 +257,8 @@ def run(item, ctx, tier, seed):
                              expected=list(shape) + [2])
                     continue
                 want = pc[idx].reshape(shape + (2,))
-                if not np.allclose(v, want, rtol=0, atol=1e-15, equal_nan=True):
+                if not np.allclose(v, want, rtol=1e-15, atol=1e-15, equal_nan=True):
                     ctx.fail("stacked-ci-equals-per-matrix", dict(case, api=api, metric=nm, alpha=a), observed=v,
                              expected=want)
-    ctx.sample({"kind": "stacked", "scale": sc, "shapes": b["leading_shapes"]})
+    ctx.sample({"kind": "stacked", "scale": sc_name, "shapes": b["leading_shapes"]})
     return None
